@@ -786,6 +786,14 @@ def poll_pending(dty):
 def h_future_poll(ex, st, frame, t, nf, args, dty):
     fut, where = find_future(ex, st, args[0])
     out_ty = output_type_of_future(dty)
+    if isinstance(fut, FutureV) and fut.kind == "closure_future":
+        # blocking-pool model: the closure runs to completion when the future is first polled
+        st.events.append(("run_closure", fut.callee, None, None))
+        call_value(ex, st, frame, fut.args[0], [], t.dest, t.targets.get("return"))
+        def _w(ex_, st_, val, _dty=dty):
+            return poll_ready(_dty, val)
+        st.frames[-1].ret_wrap = _w
+        return "pushed"
     if isinstance(fut, FutureV) and fut.kind == "stream_next":
         from . import iters as IT
         return IT.stream_poll(ex, st, fut, out_ty, dty)
@@ -815,18 +823,45 @@ def h_future_poll(ex, st, frame, t, nf, args, dty):
     return [(poll_ready(dty, v), None)]
 
 
+def _arc_payload_ref(ex, st, r, pointee_ty):
+    """Arc/Rc: the payload lives in its own heap cell shared by all clones; pseudo-field 7001 holds the pointer"""
+    arc = ex.read_path(st, r.cell, r.proj)
+    if isinstance(arc, Ref):
+        return arc
+    if not isinstance(arc, Obj):
+        raise Unsupported("smart pointer value %r" % (arc,))
+    cur = arc.fields.get((None, 7001))
+    if isinstance(cur, Ref):
+        return cur
+    mk = (arc.oid, (None, 7001))
+    if cur is None and mk in st.lazy and isinstance(st.lazy[mk], Ref):
+        arc.fields[(None, 7001)] = st.lazy[mk]
+        return st.lazy[mk]
+    if cur is None:
+        cur = ex.fresh(pointee_ty, st, "arc") if pointee_ty not in ("?", "") else Obj("?")
+    c = st.new_cell(cur)
+    ptr = Ref(c, (), True, "&" + pointee_ty)
+    arc.fields[(None, 7001)] = ptr
+    st.lazy[mk] = ptr
+    return ptr
+
+
 def h_smart_deref(ex, st, frame, t, nf, args, dty):
-    """<Arc<T>/Rc<T>/Box<T>/ManuallyDrop<T> as Deref>::deref(&p): reference to the pointee, modelled as a pseudo-field"""
+    """<Arc<T>/Rc<T>/Box<T>/ManuallyDrop<T> as Deref>::deref(&p): reference to the (shared) pointee"""
     r = args[0]
     if not isinstance(r, Ref):
         raise Unsupported("smart deref of %r" % (r,))
-    inner = ex.read_path(st, r.cell, r.proj)
-    if isinstance(inner, Ref):
-        return [(Ref(inner.cell, inner.proj, inner.mut, dty), None)]
-    pt = dty.strip()
-    pt = re.sub(r"^&('\w+ )?(mut )?", "", pt)
-    return [(Ref(r.cell, tuple(r.proj) + (("field", 7001, pt),), r.mut, dty), None)]
+    pt = re.sub(r"^&('\w+ )?(mut )?", "", dty.strip())
+    p = _arc_payload_ref(ex, st, r, pt)
+    return [(Ref(p.cell, p.proj, p.mut, dty), None)]
 
+
+def h_arc_clone(ex, st, frame, t, nf, args, dty):
+    r = args[0]
+    ga = generic_args(dty)
+    _arc_payload_ref(ex, st, r, ga[0] if ga else "?")
+    v = ex.read_path(st, r.cell, r.proj)
+    return [(copy.deepcopy(v), None)]
 
 def _atomic_cell(ex, st, r, ty):
     if not isinstance(r, Ref):
@@ -836,6 +871,8 @@ def _atomic_cell(ex, st, r, ty):
 
 def h_atomic(ex, st, frame, t, nf, args, dty):
     op = nf.rsplit("::", 1)[1]
+    if op != "load":
+        st.events.append(("atomic", op, [frame.body.name], args[1] if len(args) > 1 else None))
     if op == "load":
         c = _atomic_cell(ex, st, args[0], dty)
         return [(ex.read_path(st, c.cell, c.proj), None)]
@@ -1250,13 +1287,112 @@ def h_sort_by(ex, st, frame, t, nf, args, dty):
     return [(UNIT, None)]
 
 
+def h_slice_index_range(ex, st, frame, t, nf, args, dty):
+    """<[T] as Index<Range<usize>>>::index / RangeFrom / RangeTo: a read-only view, materialised as a fresh vector whose
+    element k is base[start + k]; the view remembers where it starts (view_start) for provenance checks."""
+    r = vec_ref(ex, st, args[0])
+    v = as_vec(ex, st, r)
+    rng = args[1]
+    n = v.len.t
+    if "RangeFrom" in nf:
+        start, end = ex._get_field(st, rng, None, 0, "usize").t, n
+    elif "RangeTo" in nf:
+        start, end = BV64(0), ex._get_field(st, rng, None, 0, "usize").t
+    elif "RangeFull" in nf:
+        start, end = BV64(0), n
+    else:
+        start, end = ex._get_field(st, rng, None, 0, "usize").t, ex._get_field(st, rng, None, 1, "usize").t
+    ok_ = z3.And(z3.ULE(start, end), z3.ULE(end, n))
+    cn = _conc(n)
+    m = v.cap if cn is None else cn
+    elems = []
+    for k in range(v.cap):
+        e = None
+        for j in range(m - 1, -1, -1):
+            if j < k:
+                break
+            ej = elem_at(ex, st, v, j)
+            e = ej if e is None else ex.ite(start + BV64(k) == BV64(j), ej, e)
+        elems.append(e)
+    view = VecV(v.elem_ty, v.cap, Sym(z3.simplify(end - start), "usize"), elems)
+    view.view_start = z3.simplify(start)
+    c = st.new_cell(view)
+    return [(Ref(c, (), False, dty), ok_), (("panic", "slice index out of range"), z3.Not(ok_))]
+
+
+def h_size_of(ex, st, frame, t, nf, args, dty):
+    m = re.search(r"size_of::<(.*)>$", t.func.strip())
+    ty = m.group(1).strip() if m else ""
+    if ty in INT_W:
+        return [(Sym(BV64(INT_W[ty] // 8), "usize"), None)]
+    raise Unsupported("size_of::<%s>" % ty[:40])
+
+
+def h_result_and_then(ex, st, frame, t, nf, args, dty):
+    v, f = args[0], args[1]
+    good = split_enum(ex, st, v, 0)
+    outs = []
+    if ex.feasible(st, z3.Not(good)):
+        s_err = st.fork()
+        s_err.pc.append(z3.Not(good))
+        ex.set_dest_and_goto(s_err, t, err(ex._get_field(s_err, s_err.frames and v or v, "Err", 0, "?"), dty))
+        outs.append(s_err)
+    if ex.feasible(st, good):
+        st.pc.append(good)
+        payload = ex._get_field(st, v, "Ok", 0, "?")
+        call_value(ex, st, frame, f, [payload], t.dest, t.targets.get("return"))
+        outs.append(st)
+    return ("states", outs)
+
+
+def _wrap_ok(dty):
+    def w(ex, st, val):
+        return ok(val, dty)
+    return w
+
+
+def h_result_map(ex, st, frame, t, nf, args, dty):
+    v, f = args[0], args[1]
+    good = split_enum(ex, st, v, 0)
+    outs = []
+    if ex.feasible(st, z3.Not(good)):
+        s_err = st.fork()
+        s_err.pc.append(z3.Not(good))
+        ex.set_dest_and_goto(s_err, t, err(ex._get_field(s_err, v, "Err", 0, "?"), dty))
+        outs.append(s_err)
+    if ex.feasible(st, good):
+        st.pc.append(good)
+        payload = ex._get_field(st, v, "Ok", 0, "?")
+        call_value(ex, st, frame, f, [payload], t.dest, t.targets.get("return"))
+        st.frames[-1].ret_wrap = _wrap_ok(dty)
+        outs.append(st)
+    return ("states", outs)
+
+
+def h_result_ok(ex, st, frame, t, nf, args, dty):
+    v = args[0]
+    good = split_enum(ex, st, v, 0)
+    alts = []
+    if ex.feasible(st, good):
+        alts.append((some(ex._get_field(st, v, "Ok", 0, "?"), dty), good))
+    if ex.feasible(st, z3.Not(good)):
+        alts.append((none(dty), z3.Not(good)))
+    return alts
+
+
 def h_panic(ex, st, frame, t, nf, args, dty):
     return "panic"
 
 
 STD_SUMMARIES = [
+    (r"^<(std::sync::|std::rc::|alloc::\w+::)?(Arc|Rc) as Clone>::clone$", h_arc_clone),
     (r"^<(std::option::)?Option as PartialEq>::(eq|ne)$", h_partial_eq),
     (r"^<impl AsRef as AsRef<.*>>::as_ref$", h_identity0),
+    (r"^(std::result::)?Result::and_then$", h_result_and_then),
+    (r"^(std::result::)?Result::map$", h_result_map),
+    (r"^(std::result::)?Result::ok$", h_result_ok),
+    (r"^<\[.*\] as (std::ops::)?Index<(std::ops::)?Range(From|To|Full)?(<usize>)?>>::index$", h_slice_index_range),
+    (r"^std::mem::size_of$", h_size_of),
     (r"^<Vec as (std::iter::)?Extend<.*>>::extend$", h_vec_extend),
     (r"^Vec::extend_from_slice$", h_vec_extend),
     (r"^(std|core)::slice::(<impl[^>]*>::)?sort_by$", h_sort_by),
